@@ -118,10 +118,62 @@ theorem C08_same_exception (w : World) (tid : Nat) (b : Body) (lvl : Level) (c :
     · intro h'; cases h'; rfl
     · intro h'; cases h'; rfl
 
+/-- the pooled low-level connection is left in the mode the connection's `autoCommit` asks for (for every value of
+    `autoCommit`; after `collect` in the BaseException-only case) -/
+theorem C08_pool_mode_restored (w : World) (tid : Nat) (b : Body) (lvl : Level) (c : Nat)
+    (hres : w.hub.resolve tid = some (lvl, .base c)) (hz : w.zombies = []) :
+    (collect (doInTx w tid b).1).poolAuto c = w.ac c
+    ∧ ∀ c', c' ≠ c → (collect (doInTx w tid b).1).poolAuto c' = w.poolAuto c' := by
+  unfold doInTx
+  simp only [hres]
+  split
+  · simp [collect, hz]
+    intro c' h1 h2; exact absurd h2 h1
+  · rename_i e he
+    cases hk : e.kind
+    · simp [collect, hz]
+      intro c' h1 h2; exact absurd h2 h1
+    · simp [collect, hz]
+      intro c' h1; simp [h1]
+
+/-- **the body runs inside the transaction**: while the body runs, the calling thread resolves — at the level its
+    binding was read from — to the transaction, also when the thread-level and the process-level binding are the
+    same connection object; nothing the body does reaches the committed rows before `doInTransaction` commits. -/
+theorem C08_body_inside_transaction (w : World) (tid : Nat) (b : Body) (lvl : Level) (c : Nat)
+    (hres : w.hub.resolve tid = some (lvl, .base c)) :
+    (w.hub.bind lvl tid (.tx c)).resolve tid = some (lvl, .tx c)
+    ∧ (runBody (w.hub.bind lvl tid (.tx c)) tid ⟨w.db, w.db⟩ b).1.db = w.db := by
+  have hb := resolve_bind w.hub tid lvl (.base c) (.tx c) hres
+  refine ⟨hb, ?_⟩
+  have key := fun steps => (runSteps_tx _ tid lvl c hb ⟨w.db, w.db⟩ steps).1
+  unfold runBody
+  cases b.raiseAt with
+  | none => exact key _
+  | some ne =>
+    obtain ⟨n, e⟩ := ne
+    simp only
+    split
+    · have k := key (b.steps.take n)
+      cases hrs : runSteps (w.hub.bind lvl tid (.tx c)) tid ⟨w.db, w.db⟩ (b.steps.take n) with
+      | mk r' oe => rw [hrs] at k; cases oe <;> exact k
+    · exact key _
+
+/-- thread-level and process-level binding set to the SAME connection: the thread level wins on the way in and on
+    the way out, and both attributes are afterwards what they were -/
+theorem C08_same_connection_both_levels (w : World) (tid : Nat) (b : Body) (c : Nat)
+    (ht : w.hub.thread tid = some (.base c)) (hp : w.hub.proc = some (.base c)) :
+    w.hub.resolve tid = some (.thread, .base c)
+    ∧ (w.hub.bind .thread tid (.tx c)).resolve tid = some (.thread, .tx c)
+    ∧ (doInTx w tid b).1.hub.thread tid = some (.base c) ∧ (doInTx w tid b).1.hub.proc = some (.base c) := by
+  have hres : w.hub.resolve tid = some (.thread, .base c) := by simp [Hub.resolve, ht]
+  have h := (C08_doInTransaction_atomic_restores w tid b .thread c hres).2.1
+  exact ⟨hres, resolve_bind w.hub tid .thread (.base c) (.tx c) hres, by rw [h]; exact ht, by rw [h]; exact hp⟩
+
 /-! ### Non-vacuity -/
 def w0 : World :=
   ⟨fun k => if k = 1 then some 10 else if k = 2 then some 20 else none,
-   ⟨fun t => if t = 1 then some (.base 1) else none, some (.base 0)⟩, fun _ => 0, []⟩
+   ⟨fun t => if t = 1 then some (.base 1) else if t = 3 then some (.base 0) else none, some (.base 0)⟩,
+   fun _ => 0, [], fun c => c != 1, fun _ => true⟩
 
 -- thread 1 (thread-level binding): body commits
 example : (doInTx w0 1 ⟨[.create 3 30, .update 1 11, .delete 2], none, 7⟩).2 = .returned 7 := by decide
@@ -136,5 +188,12 @@ example : ((doInTx w0 0 ⟨[.create 3 30, .update 1 11], some (2, ⟨.baseOnly, 
           = (none, 1, 0) := by decide
 -- the library's own exception from the middle of the body
 example : (doInTx w0 1 ⟨[.update 1 11, .create 2 5, .delete 1], none, 7⟩).2 = .raised dupExc := by decide
+
+-- thread 3: thread-level and process-level binding are the same connection 0 (autoCommit on): rollback on Exception
+example : (doInTx w0 3 ⟨[.create 3 30, .delete 1], some (2, ⟨.exc, 9⟩), 7⟩).2 = .raised ⟨.exc, 9⟩
+    ∧ (doInTx w0 3 ⟨[.create 3 30, .delete 1], some (2, ⟨.exc, 9⟩), 7⟩).1.db 1 = some 10 := by decide
+-- connection 1 has autoCommit off: its pooled low-level connection stays in manual-commit mode, and is released
+example : ((doInTx w0 1 ⟨[.update 1 11], none, 7⟩).1.poolAuto 1, (doInTx w0 1 ⟨[.update 1 11], none, 7⟩).1.inUse 1)
+    = (false, 0) := by decide
 
 end SqlObjVerif.Hub
